@@ -454,6 +454,55 @@ transient_enum_model!(ETf, 1, 2, 0);
 transient_enum_model!(ETm, 0, 2, 1);
 transient_enum_model!(ETl, 0, 1, 2);
 
+/// a tuple variant with a transient positional field in the middle
+#[derive(BinaryCodec)]
+pub enum ETup {
+    Mid(u8, #[transient(7u8)] u8, u16),
+    Plain(u8),
+}
+
+impl Model for ETup {
+    fn arb(sh: &mut Shape) -> Self {
+        if sh.choice(2) == 0 {
+            ETup::Mid(u8::arb(sh), u8::arb(sh), u16::arb(sh))
+        } else {
+            ETup::Plain(u8::arb(sh))
+        }
+    }
+    fn enc(&self, b: &mut Buf) {
+        match self {
+            ETup::Mid(a, _t, c) => {
+                enc_ctor(b, 0);
+                a.enc(b);
+                c.enc(b);
+            }
+            ETup::Plain(a) => {
+                enc_ctor(b, 1);
+                a.enc(b);
+            }
+        }
+    }
+    fn dec(r: &mut Rd) -> Option<Self> {
+        let idx = dec_ctor(r)?;
+        if idx == 0 {
+            dec_v0(r)?;
+            Some(ETup::Mid(u8::dec(r)?, 7, u16::dec(r)?))
+        } else if idx == 1 {
+            dec_v0(r)?;
+            Some(ETup::Plain(u8::dec(r)?))
+        } else {
+            None
+        }
+    }
+    fn same(&self, o: &Self) -> bool {
+        match (self, o) {
+            (ETup::Mid(a, _, c), ETup::Mid(b, t, d)) => a == b && c == d && *t == 7,
+            (ETup::Plain(a), ETup::Plain(b)) => a == b,
+            _ => false,
+        }
+    }
+}
+
 /// sorted constructors: index = position in name order (Alpha 0, Mid 1, Zeta 2), not declaration order
 #[derive(BinaryCodec)]
 #[sorted_constructors]
